@@ -17,6 +17,8 @@ pub struct GenCfg {
     /// allow `match` arms with nested constructor patterns / non-variable fix binders … (backend-limited shapes)
     pub nested_patterns: bool,
     pub named_products: bool,
+    /// C20: statements that run a closed function as an `@[monadic]` block at the identity monad
+    pub monadic: bool,
 }
 
 impl GenCfg {
@@ -30,6 +32,7 @@ impl GenCfg {
             recursion: rng.chance(3, 4),
             nested_patterns: rng.chance(1, 2),
             named_products: rng.chance(2, 3),
+            monadic: false,
         }
     }
 }
@@ -62,6 +65,8 @@ pub struct Gen {
     next_field: u32,
     budget: i64,
     pub features: BTreeSet<&'static str>,
+    /// inside a monadic block: only the constructs the algebra translation supports, no `OS`
+    pure_mode: bool,
 }
 
 const CTOR_NAMES: &[&str] = &["+Aa", "+Bb", "+Cc", "+Dd", "+Ee", "+Ff", "+Gg", "+Hh", "+Ii", "+Jj", "+Kk", "+Ll", "+Mm", "+Nn", "+Oo", "+Pp"];
@@ -71,7 +76,7 @@ const FIELD_NAMES: &[&str] = &["fa", "fb", "fc", "fd", "fe"];
 impl Gen {
     pub fn new(rng: Rng, cfg: GenCfg) -> Self {
         let budget = cfg.size;
-        Gen { rng, cfg, decls: Decls::default(), next_var: 0, next_tv: 0, next_lit: 0, next_field: 0, budget, features: BTreeSet::new() }
+        Gen { rng, cfg, decls: Decls::default(), next_var: 0, next_tv: 0, next_lit: 0, next_field: 0, budget, features: BTreeSet::new(), pure_mode: false }
     }
 
     pub fn fresh_var(&mut self) -> VarId {
@@ -262,6 +267,10 @@ impl Gen {
         if !self.decls.codata.is_empty() {
             weights[2] = 2;
         }
+        if self.pure_mode {
+            weights[2] = 0;
+            weights[3] = 0;
+        }
         match self.rng.weighted(&weights) {
             | 0 => ret(self.gen_vty(depth, depth > 0)),
             | 1 => {
@@ -393,7 +402,8 @@ impl Gen {
         self.spend(1);
         if depth > 0 && !self.low() {
             // generic productions usable at any computation type
-            let pick = self.rng.below(16);
+            // inside monadic blocks binds are what the translation rewrites: generate them more often
+            let pick = if self.pure_mode && self.rng.chance(2, 5) { 0 } else { self.rng.below(16) };
             match pick {
                 | 0 | 1 => {
                     // do x <- M; N
@@ -419,7 +429,7 @@ impl Gen {
                         return c;
                     }
                 }
-                | 5 => {
+                | 5 if !self.pure_mode => {
                     self.feat("branch");
                     let (op, t) = match self.rng.below(3) {
                         | 0 => (CmpOp::IntEq, VTy::Int),
@@ -453,17 +463,17 @@ impl Gen {
                     let body = self.gen_comp(ctx, ty, depth - 1);
                     return Comp::Force(Val::Thunk(Box::new(body), ty.clone()));
                 }
-                | 10 => {
+                | 10 if !self.pure_mode => {
                     if let Some(c) = self.gen_dtor_use(ctx, ty, depth) {
                         return c;
                     }
                 }
-                | 11 if self.cfg.polymorphism => {
+                | 11 if self.cfg.polymorphism && !self.pure_mode => {
                     if let Some(c) = self.gen_poly_use(ctx, ty, depth) {
                         return c;
                     }
                 }
-                | 12 if self.cfg.recursion => {
+                | 12 if self.cfg.recursion && !self.pure_mode => {
                     if let Some(c) = self.gen_loop(ctx, ty, depth) {
                         return c;
                     }
@@ -1068,6 +1078,28 @@ impl Gen {
         let depth = self.cfg.max_depth;
         // refill a share of the budget per statement so that late statements are not starved
         self.budget = self.budget.max(self.cfg.size / (self.cfg.statements as i64).max(1));
+        if self.cfg.monadic && self.rng.chance(5, 8) {
+            // do x <- (monadic block) args; show x; rest
+            self.feat("monadic-block");
+            let n = self.rng.below(4);
+            self.pure_mode = true;
+            let params: Vec<(VarId, VTy)> = (0..n).map(|_| (self.fresh_var(), self.gen_vty(1, true))).collect();
+            let a = self.gen_vty(2, false);
+            let block_ctx = Ctx::default().with_all(&params);
+            let mut body = self.gen_comp(&block_ctx, &ret(a.clone()), depth);
+            self.pure_mode = false;
+            for (v, t) in params.iter().rev() {
+                body = Comp::Fn { pat: Pat::Var(*v), ty: t.clone(), body: Box::new(body) };
+            }
+            let fty = funs(params.iter().map(|(_, t)| t.clone()).collect(), ret(a.clone()));
+            // arguments come from the enclosing program (they may use anything)
+            let args: Vec<(Val, VTy)> = params.iter().map(|(_, t)| (self.gen_val(ctx, t, 2), t.clone())).collect();
+            let x = self.fresh_var();
+            let ctx2 = ctx.with(x, a.clone());
+            let rest = self.gen_statements(&ctx2, remaining - 1);
+            let shown = self.gen_show(&ctx2, Val::Var(x), &a, 3, rest);
+            return Comp::Do { pat: Pat::Var(x), bindee: Box::new(Comp::Monadic { body: Box::new(body), ty: fty, args }), bindee_ty: a, tail: Box::new(shown) };
+        }
         match self.rng.below(8) {
             | 0 | 1 | 2 => {
                 // do x <- M : Ret A; show x; rest
@@ -1146,4 +1178,23 @@ pub fn generate(seed: u64, tag: &str, index: u64) -> Program {
     let mut rng = Rng::for_case(seed, tag, index);
     let cfg = GenCfg::default_for(&mut rng);
     Gen::new(rng, cfg).gen_program()
+}
+
+/// C20: programs whose statements run closed functions as `@[monadic]` blocks (translation-supported subset inside).
+pub fn generate_monadic(seed: u64, tag: &str, index: u64) -> Program {
+    let mut rng = Rng::for_case(seed, tag, index);
+    let mut cfg = GenCfg::default_for(&mut rng);
+    cfg.polymorphism = false;
+    cfg.codata = false;
+    cfg.recursion = false;
+    cfg.monadic = true;
+    cfg.statements = 1 + rng.below(3);
+    let mut g = Gen::new(rng, cfg);
+    g.gen_decls();
+    // the translation inlines the data types a block mentions: they must be transparent
+    for d in g.decls.data.iter_mut() {
+        d.sealed = false;
+    }
+    let body = g.gen_statements(&Ctx::default(), g.cfg.statements);
+    Program { decls: g.decls, body, features: g.features, var_count: g.next_var }
 }
